@@ -189,7 +189,26 @@ func (fr *Frame) call(st *State, cc *ssa.CallCommon, pos token.Pos) (*Val, *Stat
 			return fr.applyContractAt(st, con, callee.String(), callee, sig, args, pos, cc), st
 		}
 		if fr.Depth < maxInlineDepth && c.inlinable(callee) && !fr.onStack(callee) {
-			return fr.inline(st, callee, args, closure, pos)
+			// a callee the engine cannot model is abstracted like an unknown call (sound: havoc)
+			var rv *Val
+			var rs *State
+			ok := func() (ok bool) {
+				defer func() {
+					if r := recover(); r != nil {
+						if u, isU := r.(unsupported); isU {
+							c.note("%s: call to %s abstracted (not modellable: %s)", fr.Fn, callee, u.msg)
+							ok = false
+							return
+						}
+						panic(r)
+					}
+				}()
+				rv, rs = fr.inline(st, callee, args, closure, pos)
+				return true
+			}()
+			if ok {
+				return rv, rs
+			}
 		}
 	}
 	if cc.IsInvoke() {
@@ -354,6 +373,9 @@ func (fr *Frame) applyContractAt(st *State, con *Contract, name string, callee *
 	st.Alloc = na
 	c.allocFacts(res, st.Alloc)
 	for _, en := range con.Ensures {
+		if en.Local {
+			continue
+		}
 		g := fr.evalBoolEnvFresh(en.Expr, st, pre, env, pre.Alloc)
 		c.addFact(Implies(st.R, g))
 	}
@@ -493,7 +515,7 @@ func (fr *Frame) havocLoc(st, pre *State, m string, env map[string]*Val) {
 		case KIface:
 			fr.havocModelFields(st, v, "")
 		default:
-			panic("modifies x.*: x must be a pointer or interface: " + m)
+			panic(specError{"modifies x.*: x must be a pointer or interface: " + m})
 		}
 		return
 	}
@@ -519,7 +541,7 @@ func (fr *Frame) havocLoc(st, pre *State, m string, env map[string]*Val) {
 	}
 	// x.f : field or model field
 	if e.Kind != "sel" {
-		panic("unsupported modifies entry " + m)
+		panic(specError{"unsupported modifies entry " + m})
 	}
 	base := fr.evalEnv(e.Args[0], pre, pre, env)
 	if mf := c.modelField(base.T, e.Name); mf != nil {
@@ -527,7 +549,7 @@ func (fr *Frame) havocLoc(st, pre *State, m string, env map[string]*Val) {
 		return
 	}
 	if base.K != KPtr {
-		panic("modifies x.f: x must be a pointer: " + m)
+		panic(specError{"modifies x.f: x must be a pointer or carry a model field: " + m})
 	}
 	stt, ok := under(under(base.T).(*types.Pointer).Elem()).(*types.Struct)
 	if !ok {
@@ -546,7 +568,7 @@ func (fr *Frame) havocLoc(st, pre *State, m string, env map[string]*Val) {
 			return
 		}
 	}
-	panic("modifies: no field " + e.Name + " in " + m)
+	panic(specError{"modifies: no field " + e.Name + " in " + m})
 }
 
 // ---------------------------------------------------------------------------------------------
